@@ -212,6 +212,8 @@ def judgeable(program, frame):
             if c not in frame:
                 continue
             dt = frame[c].dtype
+            if isinstance(dt, pd.CategoricalDtype):
+                dt = dt.categories.dtype      # a partition column: conditions are evaluated on its values
             vals = v if isinstance(v, list) else [v]
             unit = None
             if isinstance(dt, pd.DatetimeTZDtype):
@@ -223,7 +225,7 @@ def judgeable(program, frame):
                 # isin() with a list that mixes floats and integers compares through float64: exact only below 2**53
                 has_float = any(isinstance(x, (float, np.floating)) for x in v)
                 big = any(isinstance(x, (int, np.integer)) and not isinstance(x, (bool, np.bool_)) and abs(int(x)) >= 2 ** 53 for x in v)
-                if has_float and (big or (len(frame) and int(np.abs(frame[c].dropna().astype("float64")).max() if len(frame[c].dropna()) else 0) >= 2 ** 53)):
+                if has_float and (big or (len(frame) and int(np.abs(pd.Series(frame[c].dropna().astype(object).tolist(), dtype="float64")).max() if len(frame[c].dropna()) else 0) >= 2 ** 53)):
                     raise Unorderable("list mixing floats and integers against 64-bit integers beyond 2**53 (compared through float64)")
             for x in vals:
                 if unit and unit != "ns" and isinstance(x, (pd.Timestamp, np.datetime64, datetime.datetime, pd.Timedelta, np.timedelta64)):
